@@ -4,8 +4,11 @@ import Moyo.Model.NFSpec
 import Moyo.Model.Hall
 import Moyo.Model.DriverC14
 import Moyo.Model.DriverPipe
+import Moyo.Model.DriverC07
+import Moyo.Model.DriverStage
 import Moyo.Model.DriverC19
 import Moyo.Model.DriverC20
+import Moyo.Model.DriverMag
 import Moyo.Generated.HallTable
 import Moyo.Generated.ArithTable
 import Moyo.Generated.MagTable
@@ -132,10 +135,13 @@ def stepCore (line : String) : Option String :=
 /-- Handler chain: each handler takes the raw request line and answers `some reply` if the command
 is its own.  Add new handlers (one per driver module `Moyo/Model/Driver*.lean`) BEFORE `stepCore`. -/
 def handlers : List (String → Option String) := [
+  Moyo.DriverC07.step?,
   Moyo.DriverPipe.step?,
+  Moyo.DriverStage.step?,
   Moyo.DriverC14.step?,
   Moyo.DriverC19.step?,
   Moyo.DriverC20.step?,
+  Moyo.DriverMag.step?,
   stepCore
 ]
 
